@@ -388,7 +388,9 @@ def expected_lines(events, facts, files, programs):
     texts = dict(files)
     for fn, spec in programs:
         d = dict(named)
-        ret = next((i for i, l in enumerate(texts[fn].split("\n"), 1) if l.strip().startswith("return ")), None)
+        # nada_main's own return statement: the last one of the file (function bodies defined inside nada_main return earlier)
+        rets = [i for i, l in enumerate(texts[fn].split("\n"), 1) if l.strip().startswith("return ")]
+        ret = rets[-1] if rets else None
         if ret is not None:
             for _, oname, _ in spec:
                 d[("output", oname)] = (fn, ret)
